@@ -41,8 +41,11 @@ def run(ctx):
     from .c05 import check_masked_occupations, check_rep_rows
     ctx.rule("R7", "the threshold a result is converged to is the requested one: scf_eps reaches every convergence comparison unmodified and is never loosened on the way "
                    "(shared with C04-R4)")
-    from .c04 import _threshold_integrity
+    from .c04 import _threshold_integrity, check_no_start_memory
     _threshold_integrity(ctx, "R7")
+    ctx.rule("R8", "a converged result is the fixed point for *any* initial density: nothing computed once from the start density (its trace, its diagonal) enters the iteration "
+                   "except the iterate and loop-carried state (shared with C04-R7)")
+    check_no_start_memory(ctx, "R8")
     check_rep_rows(ctx, "R6")
     check_masked_occupations(ctx, "R6")
     check_arm_agreement(ctx, scf, "R5")
